@@ -192,6 +192,10 @@ func rangeScenario(r *Run) {
 	if hdr.Chance(1, 3) {
 		limit = 1 + hdr.Draw(5)
 	}
+	if hdr.Chance(1, 3) {
+		rangeRerunScenario(r, hdr)
+		return
+	}
 	sql := fmt.Sprintf("SELECT * FROM range(start=>%d, end=>%d) r", start, end)
 	if start < 0 || end < 0 {
 		sql = fmt.Sprintf("SELECT * FROM range(start=>0 - %d, end=>0 - %d + %d) r", -start, -start, end-start)
@@ -232,6 +236,48 @@ func rangeScenario(r *Run) {
 	}
 	if fmt.Sprint(got) != fmt.Sprint(want) {
 		r.Violate("C21", "range_sequence", attrs, "range(%d,%d) limit %d emitted %v, specified %v", start, end, limit, got, want)
+	}
+}
+
+// rangeRerunScenario: the same range node is run several times with bounds that depend on the outer
+// record (the joined side of a LOOKUP JOIN is run once per outer record): every run must emit its own
+// interval. `a LOOKUP JOIN range(start=>0, end=>a.i) b` = for every i of a, in order: (i,0) .. (i,i-1).
+func rangeRerunScenario(r *Run, hdr *Tape) {
+	start := int64(hdr.Draw(4))
+	end := start + int64(hdr.Draw(5))
+	sql := fmt.Sprintf("SELECT a.i, b.i FROM range(start=>%d, end=>%d) a LOOKUP JOIN range(start=>0, end=>a.i) b", start, end)
+	attrs := map[string]string{"tvf": "range", "rerun": "lookup_join"}
+	r.Log("sql: %s", sql)
+	r.Shape("range_rerun")
+	r.Sched(start, end)
+	r.NonTrivial(end-start >= 2)
+	r.Probe("range_node_run_per_outer_record")
+	planned, err := PlanSQL(bubbleCtx(), sql, map[string]*SimTable{}, hdr.Chance(1, 2))
+	if err != nil {
+		r.Infra("query did not plan: %v", err)
+		return
+	}
+	var got [][2]int64
+	err = planned.Node.Run(execution.ExecutionContext{Context: bubbleCtx()},
+		func(ctx execution.ProduceContext, rec execution.Record) error {
+			got = append(got, [2]int64{rec.Values[0].Int, rec.Values[1].Int})
+			return nil
+		},
+		func(ctx execution.ProduceContext, msg execution.MetadataMessage) error { return nil })
+	r.Log("out: %v err=%v", got, err)
+	r.AddEvents(len(got))
+	if err != nil {
+		r.Violate("C21", "run_error", attrs, "range failed: %v", err)
+		return
+	}
+	var want [][2]int64
+	for i := start; i < end; i++ {
+		for j := int64(0); j < i; j++ {
+			want = append(want, [2]int64{i, j})
+		}
+	}
+	if fmt.Sprint(got) != fmt.Sprint(want) {
+		r.Violate("C21", "range_sequence", attrs, "%s emitted %v, specified %v", sql, got, want)
 	}
 }
 
